@@ -449,7 +449,9 @@ func runPhase(prop *Property, ph *Phase, tier string, seed int64, n int, bin, re
 					return
 				}
 				verdict, msg, finding := Inconclusive, "", ""
-				if ph.CrashVerdict != nil {
+				if kind == "starved" {
+					msg = "the worker finished no case for 20 watchdog periods, but the kernel's accounting shows it waiting for a CPU rather than spinning or blocked: the machine is too busy for a verdict on this case"
+				} else if ph.CrashVerdict != nil {
 					verdict, msg, finding = ph.CrashVerdict(kind, detail, idx)
 				}
 				if msg == "" {
@@ -532,9 +534,10 @@ func runWorker(prop *Property, ph *Phase, tier string, seed int64, job shardJob,
 		return int64(binary.LittleEndian.Uint64(b))
 	}
 	var waitErr error
-	hung := false
+	hung, starved := false, false
 	last := int64(-1)
 	lastChange := time.Now()
+	cpu0, delay0 := procTimes(cmd.Process.Pid)
 	tick := time.NewTicker(500 * time.Millisecond)
 	defer tick.Stop()
 loop:
@@ -547,7 +550,26 @@ loop:
 			if p != last {
 				last = p
 				lastChange = time.Now()
-			} else if time.Since(lastChange) > timeout {
+				cpu0, delay0 = procTimes(cmd.Process.Pid)
+			} else if wall := time.Since(lastChange); wall > timeout {
+				// No progress for a whole watchdog period of wall-clock time.
+				// On a busy machine that alone says little, so the verdict is
+				// taken from what the kernel accounted to the worker in the
+				// meantime: a full period of CPU time without finishing the
+				// case = spinning; (almost) no CPU time and no time spent
+				// waiting for a CPU = blocked; otherwise the worker is being
+				// starved and gets more time (20 periods at most, after which
+				// the case is inconclusive, not hung).
+				cpu, delay := procTimes(cmd.Process.Pid)
+				dc, dd := cpu-cpu0, delay-delay0
+				spinning := dc >= timeout
+				blocked := dc < wall/20 && dd < wall/4
+				if !spinning && !blocked && cpu >= 0 {
+					if wall < 20*timeout {
+						continue
+					}
+					starved = true
+				}
 				hung = true
 				syscall.Kill(-cmd.Process.Pid, syscall.SIGQUIT)
 				select {
@@ -566,6 +588,9 @@ loop:
 		races = parseRaces(stderrText)
 	}
 	p := readProg()
+	if starved {
+		return "starved", int(p) - 1, stderrText, races
+	}
 	if hung {
 		return "hang", int(p) - 1, stderrText, races
 	}
@@ -630,4 +655,37 @@ func parseRaces(text string) []raceReport {
 		out = append(out, raceReport{sig: strings.Join(frames, "+"), text: truncate(block, 4000)})
 	}
 	return out
+}
+
+// procTimes sums, over the threads of a process, the CPU time consumed and
+// the time spent runnable but waiting for a CPU (/proc/<pid>/task/*/schedstat).
+// It returns -1, -1 where that accounting is not available.
+func procTimes(pid int) (cpu, runDelay time.Duration) {
+	tasks, err := os.ReadDir(fmt.Sprintf("/proc/%d/task", pid))
+	if err != nil {
+		return -1, -1
+	}
+	found := false
+	for _, t := range tasks {
+		b, err := os.ReadFile(fmt.Sprintf("/proc/%d/task/%s/schedstat", pid, t.Name()))
+		if err != nil {
+			continue
+		}
+		f := strings.Fields(string(b))
+		if len(f) < 2 {
+			continue
+		}
+		c, e1 := strconv.ParseInt(f[0], 10, 64)
+		d, e2 := strconv.ParseInt(f[1], 10, 64)
+		if e1 != nil || e2 != nil {
+			continue
+		}
+		found = true
+		cpu += time.Duration(c)
+		runDelay += time.Duration(d)
+	}
+	if !found {
+		return -1, -1
+	}
+	return cpu, runDelay
 }
